@@ -3,7 +3,7 @@
    instantiated with the field of C08 in Model/RS16.v.  Matrices are values in
    the model; non-mutation of the Go operands is checked by the harness. *)
 From Gopar Require Import Model.Base Model.GF16 Model.Matrix Model.RS16
-     Proofs.LinAlg Proofs.Matrix16.
+     Proofs.LinAlg Proofs.Matrix16 Proofs.LinAlgSingular Proofs.Matrix16Singular.
 Open Scope N_scope.
 
 (* [M | N] reduces to the unique X with M X = N; the only other outcome on
@@ -44,6 +44,18 @@ Theorem C11_times_assoc : forall r k c1 c2 M A Bm, wfm16 r k M -> wfm16 k c1 A -
   mmul16 c2 (mmul16 c1 M A) Bm = mmul16 c2 M (mmul16 c2 A Bm).
 Proof. exact mmul16_assoc. Qed.
 Print Assumptions C11_times_assoc.
+
+(* an error is reported EXACTLY when the matrix is singular: the singular error is returned iff M has a
+   non-trivial kernel vector - for row reduction of any augmented system and for inversion *)
+Theorem C11_singular_iff : forall k c M N, (0 < k)%nat -> wfm16 k k M -> wfm16 k c N ->
+  (RowReduce16 M N = Err ESingular <-> exists v, wfv16 k v /\ v <> zeros k /\ mvec16 M v = zeros k).
+Proof. exact row_reduce16_singular_iff. Qed.
+Print Assumptions C11_singular_iff.
+
+Theorem C11_inverse_singular_iff : forall k M, (0 < k)%nat -> wfm16 k k M ->
+  (Inverse16 M = Err ESingular <-> exists v, wfv16 k v /\ v <> zeros k /\ mvec16 M v = zeros k).
+Proof. exact inverse16_singular_iff. Qed.
+Print Assumptions C11_inverse_singular_iff.
 
 Example C11_example :
   Inverse16 [[0; 1; 0]; [2; 0; 3]; [1; 1; 1]] = Ok [[3; 1; 3]; [1; 0; 0]; [2; 1; 2]]
